@@ -13,6 +13,18 @@ from harness import c13_gen
 from harness import schema_xml as SX
 
 PROP = "C13"
+# 1 = the code after the fix: commits for C13-F2, C13-F3, C13-F4 (model argument fixed=true, the oracle demands the
+# full statement for these classes); 0 = the code before them (fixed=false, the three classes are accepted as the
+# recorded, repaired defects)
+FIXED = int(os.environ.get("VERIF_C13_FIXED", "1"))
+LEGACY = {
+    "C13-F2": {"property": "C13", "id": "C13-F2", "what": "(repaired; VERIF_C13_FIXED=0) check_tag_formatting applied "
+               "the pattern ^/ to the tag text including its namespace: 'sc:/Red/' one TAG_INVALID, '/Red/' two"},
+    "C13-F3": {"property": "C13", "id": "C13-F3", "what": "(repaired; VERIF_C13_FIXED=0) check_capitalization looked at "
+               "org_base_tag including the namespace: 'sc:3-periodic-discharge-phases' got a STYLE_WARNING"},
+    "C13-F4": {"property": "C13", "id": "C13-F4", "what": "(repaired; VERIF_C13_FIXED=0) set_schema_prefix accepted a "
+               "non-ASCII namespace ('é:') whose tags are all CHARACTER_INVALID under pre-8.3 rules"},
+}
 COQ_TARGETS = ["Props/C13.vo", "Extract/ExtractC13.vo"]
 TRUSTED = [
     "Model/Namespace.v is a hand transcription of HedTag._get_schema_namespace/long_tag/org_base_tag, "
@@ -34,8 +46,11 @@ TRUSTED = [
     "translator T4 (harness/schema_xml.py, xml.etree, independent of hed-python) for Gen/Schema_*_c13.v",
 ]
 ASSUMPTIONS = [
-    "prefixed_equiv/unprefixed_equiv are proved for ALL groups, schemas (arbitrary resolver) and annotation trees under "
-    "explicit side conditions; the full statements are refuted on the faithful model (4 witnesses, replayed on the code)",
+    "prefixed_equiv/unprefixed_equiv are proved for ALL groups, schemas (arbitrary resolver) and annotation trees of the "
+    "repaired code (fixed=true) with the remaining side conditions explicit: same character-rule generation of group and "
+    "schema (unrepaired C13-F1, refuted without it), no matching required/unique names in the other schemas, remainders "
+    "are part of the tag text, other rules namespace-blind; the refutations of the unrepaired code (C13-F2/F3/F4) are kept "
+    "as records (fixed=false)",
     "annotations are trees of tag texts: delimiter-level errors (parentheses, commas) are outside the model and only "
     "tested on the implementation",
     "partnered-contains-standard and the loader outcomes on the bundled schemas are kernel-evaluated (vm_compute) on "
@@ -66,14 +81,17 @@ def fname(k):
 
 # configurations: (version list, {prefix: schema key})
 CONFIGS_QUICK = [
-    (["8.3.0", "sc:score_2.0.0"], {"": "8_3_0", "sc:": "score_2_0_0"}),
     (["8.2.0", "sc:score_1.1.0", "tl:testlib_2.0.0"], {"": "8_2_0", "sc:": "score_1_1_0", "tl:": "testlib_2_0_0"}),
     (["testlib_3.0.0", "xx:8.2.0", "t:testlib_2.1.0"], {"": "testlib_3_0_0", "xx:": "8_2_0", "t:": "testlib_2_1_0"}),
     (["8.3.0", "sc:score_2.0.0", "tl:testlib_3.0.0"], {"": "8_3_0", "sc:": "score_2_0_0", "tl:": "testlib_3_0_0"}),
     (["8.2.0", "score:score_2.0.0"], {"": "8_2_0", "score:": "score_2_0_0"}),
-    (["8.2.0", "é:testlib_2.0.0"], {"": "8_2_0", "é:": "testlib_2_0_0"}),
 ]
+if not FIXED:
+    CONFIGS_QUICK.append((["8.2.0", "é:testlib_2.0.0"], {"": "8_2_0", "é:": "testlib_2_0_0"}))
+else:
+    CONFIGS_QUICK.append((["sc:score_1.1.0", "tl:testlib_3.0.0"], {"sc:": "score_1_1_0", "tl:": "testlib_3_0_0"}))
 CONFIGS_MORE = [
+    (["8.3.0", "sc:score_2.0.0"], {"": "8_3_0", "sc:": "score_2_0_0"}),
     (["xx:testlib_2.1.0", "tl:score_1.1.0"], {"xx:": "testlib_2_1_0", "tl:": "score_1_1_0"}),
     (["sc:score_2.0.0", "xx:8.3.0"], {"sc:": "score_2_0_0", "xx:": "8_3_0"}),
     (["tl:testlib_2.0.0", "sc:testlib_2.1.0", "8.2.0"], {"tl:": "testlib_2_0_0", "sc:": "testlib_2_1_0", "": "8_2_0"}),
@@ -81,6 +99,26 @@ CONFIGS_MORE = [
     (["score_1.1.0", "tl:8.2.0"], {"": "score_1_1_0", "tl:": "8_2_0"}),
     (["testlib_2.0.0", "tl:testlib_2.0.0"], {"": "testlib_2_0_0", "tl:": "testlib_2_0_0"}),
 ]
+
+# configurations that are ONE schema object: a one-element list, a plain HedSchema from load_schema ("@key"), libraries
+# merged under the unprefixed namespace ("!key": tag names come from that file, there is no single file to compare
+# with), a single schema with a prefix.  Every foreign prefix must be an error here too.
+CONFIGS_SINGLE = [
+    (["8.3.0"], {"": "8_3_0"}),
+    (["@8_2_0"], {"": "8_2_0"}),
+    (["score_1.1.0", "testlib_2.0.0"], {"": "!score_1_1_0"}),
+    (["tl:testlib_3.0.0"], {"tl:": "testlib_3_0_0"}),
+]
+CONFIGS_SINGLE_MORE = [
+    (["sc:score_2.0.0"], {"sc:": "score_2_0_0"}),
+    (["@testlib_2_1_0"], {"": "testlib_2_1_0"}),
+    (["xx:score_1.1.0", "xx:testlib_2.1.0"], {"xx:": "!testlib_2_1_0"}),
+]
+
+
+def model_vlist(vlist):
+    return [vkey(v[1:]) if v.startswith("@") else v for v in vlist]
+
 
 # ---------------------------------------------------------------- worker side (implementation)
 
@@ -98,6 +136,8 @@ def _init(cache_dir):
 
 def w_group(vlist):
     k = tuple(vlist)
+    if len(k) == 1 and k[0].startswith("@"):
+        return w_single(k[0][1:])
     if k not in _W["groups"]:
         from hed.schema import load_schema_version
         _W["groups"][k] = load_schema_version(list(vlist), xml_folder=_W["dir"])
@@ -295,9 +335,9 @@ def t_twa(vlist):
 
 def t_config(task):
     """everything that needs one loaded configuration, in one worker"""
-    vlist, bad_texts, res_texts, grp_lists = task
+    vlist, bad_texts, res_texts, grp_lists, want_entries = task
     return (t_badprefix((vlist, bad_texts)), t_resolve((vlist, res_texts)), t_grouprules((vlist, grp_lists)),
-            t_twa(vlist), t_entries(vlist))
+            t_twa(vlist), t_entries(vlist) if want_entries else None)
 
 
 def guarded(f, task):
@@ -500,7 +540,7 @@ def cap_warn(name):
 
 def classify(p, a, g, s, f, gf, sf):
     """A difference between the group verdict g and the alone verdict s: which known class (if any) explains it."""
-    if any(ord(c) > 127 for c in p) and not gf:
+    if not FIXED and any(ord(c) > 127 for c in p) and not gf:
         return "C13-F4"
     ref = s
     fid = None
@@ -510,6 +550,8 @@ def classify(p, a, g, s, f, gf, sf):
         ref = f
         fid = "C13-F1" if f != s else None
     bodies = tags_of(a)
+    if FIXED:
+        return None          # the classes C13-F2, C13-F3 are repaired: any other difference is a violation
     if any(b.strip().startswith("/") for b in bodies):
         return "C13-F2"
     strip = lambda v: [x for x in v if x[0] != "STYLE_WARNING"]
@@ -564,6 +606,8 @@ def model_entries(m):
 
 def run(tier, seed, res, model_ok=True, proof_ok=True):
     rng = random.Random(seed)
+    if not FIXED:
+        res.known_ids.update(LEGACY)
     thorough = tier == "thorough"
     wide = (not proof_ok)
     scratch = C.scratch_dir()
@@ -581,7 +625,9 @@ def _run(rng, thorough, wide, res, model_ok, scratch):
     allsch = SX.load_all()
     tagsets = {k: [t for t in allsch[k]["tags"] if fold_ok(t["long"])] for k in ALL_KEYS}
     configs = CONFIGS_QUICK + (CONFIGS_MORE if (thorough or wide) else [])
-    n_ann = 6000 if thorough else (900 if wide else 260)
+    n_multi = len(configs)
+    configs = configs + CONFIGS_SINGLE + (CONFIGS_SINGLE_MORE if (thorough or wide) else [])
+    n_ann = 6000 if thorough else (900 if wide else 160)
     stats = {"histogram": {}}
     H = stats["histogram"]
     evaluations = 0
@@ -598,12 +644,16 @@ def _run(rng, thorough, wide, res, model_ok, scratch):
     for vlist, pmap in configs:
         plist = []
         for p, key in pmap.items():
+            if key.startswith("!"):
+                continue
             anns = list(corpus)
-            while len(anns) < n_ann:
+            while len(anns) < (n_ann if len(pmap) > 1 else max(n_ann // 3, 40)):
                 a = gen_ann(rng, tagsets[key], rng.randint(0, 3))
                 if unprefixed_ok(a):
                     anns.append(a)
             plist.append((p, key, anns))
+        if not plist:
+            continue
         if n_ann <= chunk:
             equiv_tasks.append((vlist, plist))
         else:
@@ -617,11 +667,11 @@ def _run(rng, thorough, wide, res, model_ok, scratch):
         loaded = list(pmap.keys())
         texts = []
         for _ in range(60 if not thorough else 400):
-            key = rng.choice(list(pmap.values()))
+            key = rng.choice(list(pmap.values())).lstrip("!")
             base = rng.choice(tagsets[key])["long"].split("/")
             body = base[-1] if base[-1] != "#" else base[-2] + "/3"
-            badp = rng.choice(["xx:", "t1:", "TL:", "1:", ":", "a:b:", "zz:", "t-l:", "é1:"] +
-                              [q.upper() for q in loaded if q and q.upper() not in loaded])
+            badp = rng.choice(["xx:", "t1:", "TL:", "1:", ":", "a:b:", "zz:", "t-l:", "é1:", "tl:", "sc:", "score:", "tl:",
+                               "sc:", "xx:", "t1:", ""] + [q.upper() for q in loaded if q and q.upper() not in loaded])
             if badp in loaded:
                 continue
             other = rng.choice(["", "", rng.choice([q for q in loaded]) + "Red, "])
@@ -642,8 +692,10 @@ def _run(rng, thorough, wide, res, model_ok, scratch):
         loads = [[vkey(a), vkey(b)] for a in ALL_KEYS for b in ALL_KEYS]
         loads += [["tl:" + vkey(a), "tl:" + vkey(b)] for a in ALL_KEYS[2:] for b in ALL_KEYS[2:]]
     else:
-        modern = [k for k in ALL_KEYS if k in c13_gen.KEYS]
+        modern = ["8_3_0", "score_2_0_0", "testlib_2_0_0", "testlib_2_1_0"]
         loads = [[vkey(a), vkey(b)] for a in modern for b in modern]
+        loads += [["score_1.1.0", "testlib_2.0.0"], ["testlib_2.1.0", "score_1.1.0"], ["score_1.1.0", "score_2.0.0"]]
+        loads += [["8.2.0", "testlib_3.0.0"], ["testlib_3.0.0", "testlib_2.0.0"], ["testlib_3.0.0", "score_1.1.0"]]
         loads += [[vkey(a), vkey(b)] for a, b in [("8_0_0", "8_1_0"), ("score_1_0_0", "testlib_1_0_2"),
                                                    ("testlib_1_0_2", "testlib_2_0_0"), ("8_1_0", "score_1_0_0")]]
         loads += [["tl:" + vkey(a), "tl:" + vkey(b)] for a, b in [("testlib_2_0_0", "testlib_2_0_0"),
@@ -655,14 +707,15 @@ def _run(rng, thorough, wide, res, model_ok, scratch):
               ["t1:testlib_3.0.0"], ["tl:testlib_3.0.0"], ["TL:testlib_3.0.0", "tl:score_2.0.0"], [":testlib_3.0.0"],
               ["é:testlib_3.0.0"], [""], ["tl:"], ["8.3"], ["tl:testlib_x"], ["testlib_2.0.0,testlib_2.0.0"],
               ["tl:testlib_2.0.0", "tl:score_1.1.0,testlib_2.0.0"], ["8.3.0", "8.3.0"], ["8.3.0", "tl:8.3.0", "sc:8.3.0"],
-              ["sc:score_1.1.0", "tl:testlib_2.0.0", "sc:testlib_2.1.0", "8.2.0"], ["t-l:8.3.0"]]
+              ["sc:score_1.1.0", "tl:testlib_2.0.0", "sc:testlib_2.1.0", "8.2.0"], ["t-l:8.3.0"],
+              ["8.2.0", "é:testlib_2.0.0"], ["ß:8.3.0"], ["Ab:8.3.0", "ab:8.2.0"]]
     loads += [v for v, _ in configs]
     seen = set()
     loads = [l for l in loads if not (tuple(l) in seen or seen.add(tuple(l)))]
 
     res_tasks = []
     for vlist, pmap in configs:
-        names = [t["long"] for k in pmap.values() for t in tagsets[k]]
+        names = [t["long"] for k in pmap.values() for t in tagsets[k.lstrip("!")]]
         texts = list(ODD_TAGS) + [gen_tagtext(rng, names, list(pmap.keys())) for _ in range(3000 if thorough else 700)]
         texts = [t for t in texts if fold_ok(t)]
         res_tasks.append((vlist, texts))
@@ -685,13 +738,53 @@ def _run(rng, thorough, wide, res, model_ok, scratch):
         lib_tags = [(t["long"], t["attrs"]) for t in allsch[l]["tags"] if "inLibrary" in t["attrs"]]
         partner_tasks.append((b, l, std_tags, lib_tags))
 
-    cfg_tasks = [(vl, bt[1], rt[1], gt[1]) for (vl, _), bt, rt, gt in zip(configs, bad_tasks, res_tasks, grp_tasks)]
+    ent_want = set(range(len(configs))) if (thorough or wide) else {0, 1}
+    cfg_tasks = [(vl, bt[1], rt[1], gt[1], ci in ent_want)
+                 for ci, ((vl, _), bt, rt, gt) in enumerate(zip(configs, bad_tasks, res_tasks, grp_tasks))]
     ent_extra = [["score_1.1.0", "testlib_2.0.0"]]
+    unm_pairs = PAIRS if (thorough or wide) else PAIRS[:2]
+
+    # the extracted model runs in its own process while the implementation is exercised
+    from hed.errors.exceptions import HedExceptions
+    import threading
+    drv = {}
+    if model_ok:
+        exe = C.build_driver("c13")
+        main_lines = ["(clear)"] + [file_line(vkey(k), allsch[k]) for k in ALL_KEYS]
+        idx = {}
+        for i, vl in enumerate(loads):
+            idx[("load", i)] = len(main_lines)
+            main_lines.append("(load %d L" % FIXED + str(i) + " (" + " ".join(sx_s(v) for v in vl) + "))")
+        ent_cfgs = [v for v, _ in configs] + ent_extra
+        n_schemas = [len(pm) for _, pm in configs] + [1]
+        for ci, vl in enumerate(ent_cfgs):
+            main_lines.append("(load %d C" % FIXED + str(ci) + " (" + " ".join(sx_s(v) for v in model_vlist(vl)) + "))")
+            idx[("flag", ci)] = len(main_lines)
+            main_lines += ["(flag C%d)" % ci, "(twa C%d required)" % ci, "(twa C%d unique)" % ci]
+            if ci in ent_want or ci >= len(configs):
+                idx[("ent", ci)] = len(main_lines)
+                main_lines += ["(entries C%d %d)" % (ci, j) for j in range(n_schemas[ci])]
+        for ci, (vl, texts) in enumerate(res_tasks):
+            idx[("res", ci)] = len(main_lines)
+            for t in texts:
+                main_lines += ["(resolve C%d %s)" % (ci, sx_s(t)), "(cap %d C%d %s)" % (FIXED, ci, sx_s(t)),
+                          "(getent C%d %s %s)" % (ci, sx_s(t), sx_s(re.match(r"^[^:/]*:", t).group(0) if re.match(r"^[^:/]*:", t) else ""))]
+        for ci, (vl, lists) in enumerate(grp_tasks):
+            idx[("grp", ci)] = len(main_lines)
+            main_lines += ["(grp C%d (%s))" % (ci, " ".join(sx_s(t) for t in l)) for l in lists]
+
+        def run_model():
+            try:
+                drv["out"] = C.run_driver(exe, main_lines, shards=1, timeout=3000)
+            except Exception as e:  # noqa
+                drv["err"] = repr(e)
+        drv_thread = threading.Thread(target=run_model)
+        drv_thread.start()
     with Pool(int(C.JOBS), initializer=_init, initargs=(cache,)) as pool:
         r_equiv = pool.map_async(g_equiv, equiv_tasks, chunksize=1)
         r_cfg = pool.map_async(g_config, cfg_tasks, chunksize=1)
         r_part = pool.map_async(g_partner, partner_tasks, chunksize=1)
-        r_unm = pool.map_async(g_unmerged, [l for _, l in PAIRS], chunksize=1)
+        r_unm = pool.map_async(g_unmerged, [l for _, l in unm_pairs], chunksize=1)
         r_load = pool.map_async(t_load, loads, chunksize=2)
         r_ent = pool.map_async(g_entries, ent_extra, chunksize=1)
         r_pieces = pool.map_async(t_pieces, [piece_texts[i::16] for i in range(16)], chunksize=1)
@@ -768,7 +861,7 @@ def _run(rng, thorough, wide, res, model_ok, scratch):
         H["partner-tags"] = H.get("partner-tags", 0) + n
         for form, why in badl:
             res.report("partnered-contains-standard", {"kind": "partner", "std": b, "lib": l, "tag": form}, why)
-    for (b, l), u in zip(PAIRS, unmr):
+    for (b, l), u in zip(unm_pairs, unmr):
         evaluations += 1
         if failed(u) or "exn" in u or not u["same"] or u["dups"]:
             res.report("partner-merge-equals-merged-file", {"kind": "unmerged", "lib": l},
@@ -786,7 +879,7 @@ def _run(rng, thorough, wide, res, model_ok, scratch):
             ns, _, ver = v.partition(":") if ":" in v else ("", "", v)
             groups.setdefault(ns, []).append(ver)
         for ns, vs in groups.items():
-            if ns and not ns.isalpha():
+            if ns and not (ns.isalpha() and (ns.isascii() or not FIXED)):
                 return "refuse"
             if any(x not in bykey for x in vs):
                 return None
@@ -819,8 +912,6 @@ def _run(rng, thorough, wide, res, model_ok, scratch):
     # ---------------- correspondence with the extracted model
     corr = 0
     if model_ok:
-        exe = C.build_driver("c13")
-
         def corr_violation(what, case, detail):
             nonlocal disagreements
             disagreements += 1
@@ -828,7 +919,7 @@ def _run(rng, thorough, wide, res, model_ok, scratch):
 
         lines = []
         for t in piece_texts:
-            lines += ["(ns " + sx_s(t) + ")", "(pfx " + sx_s(t) + ")", "(fmt " + sx_s(t) + ")",
+            lines += ["(ns " + sx_s(t) + ")", "(pfx " + sx_s(t) + ")", "(fmt %d " % FIXED + sx_s(t) + ")",
                       "(chars 1 " + sx_s(t) + ")", "(chars 0 " + sx_s(t) + ")"]
         out = C.run_driver(exe, lines)
         pieces_flat = [None] * len(piece_texts)
@@ -850,13 +941,12 @@ def _run(rng, thorough, wide, res, model_ok, scratch):
                 if mine[k] != o[k] or o["ns"] != o["ns_attr"]:
                     corr_violation("pieces:" + k, {"text": t, "codepoints": C.cps(t)}, f"impl={o} model={mine}")
                     break
-        out = C.run_driver(exe, ["(setp " + sx_s(p) + ")" for p in prefixes])
+        out = C.run_driver(exe, ["(setp %d " % FIXED + sx_s(p) + ")" for p in prefixes])
         for p, o, m in zip(prefixes, setp, out):
             corr += 1
             mm = ["ok", un(m[1])] if m[0] == "ok" else ["exn", m[1]]
             if mm != o[:2]:
                 corr_violation("set_schema_prefix", {"prefix": p}, f"impl={o} model={mm}")
-        from hed.errors.exceptions import HedExceptions
         out = C.run_driver(exe, ["(pvl (" + " ".join(sx_s(v) for v in vl) + "))" for vl in vlists])
         for vl, o, m in zip(vlists, pvl, out):
             corr += 1
@@ -867,29 +957,15 @@ def _run(rng, thorough, wide, res, model_ok, scratch):
             if mm != o:
                 corr_violation("parse_version_list", {"vlist": vl}, f"impl={o} model={mm}")
 
-        # stateful part: one driver process
-        lines = ["(clear)"] + [file_line(vkey(k), allsch[k]) for k in ALL_KEYS]
-        idx = {}
-        for i, vl in enumerate(loads):
-            idx[("load", i)] = len(lines)
-            lines.append("(load L" + str(i) + " (" + " ".join(sx_s(v) for v in vl) + "))")
-        ent_cfgs = [v for v, _ in configs] + ent_extra
-        for ci, vl in enumerate(ent_cfgs):
-            lines.append("(load C" + str(ci) + " (" + " ".join(sx_s(v) for v in vl) + "))")
-            idx[("flag", ci)] = len(lines)
-            lines += ["(flag C%d)" % ci, "(twa C%d required)" % ci, "(twa C%d unique)" % ci]
-            idx[("ent", ci)] = len(lines)
-            lines += ["(entries C%d %d)" % (ci, j) for j in range(len(entr[ci] or []))]
-        for ci, (vl, texts) in enumerate(res_tasks):
-            idx[("res", ci)] = len(lines)
-            for t in texts:
-                lines += ["(resolve C%d %s)" % (ci, sx_s(t)), "(cap C%d %s)" % (ci, sx_s(t)),
-                          "(getent C%d %s %s)" % (ci, sx_s(t), sx_s(re.match(r"^[^:/]*:", t).group(0) if re.match(r"^[^:/]*:", t) else ""))]
-        for ci, (vl, lists) in enumerate(grp_tasks):
-            idx[("grp", ci)] = len(lines)
-            lines += ["(grp C%d (%s))" % (ci, " ".join(sx_s(t) for t in l)) for l in lists]
+        # stateful part (started before the pool): loads, configurations, resolution, group rules
+        drv_thread.join()
+        if "out" not in drv:
+            raise RuntimeError("model driver failed: " + drv.get("err", "?"))
+        out = drv["out"]
         # partner merge: unmerged XML written by the implementation, read independently, merged by the model
-        for pi, ((b, l), u) in enumerate(zip(PAIRS, unmr)):
+        lines2 = ["(clear)"] + [file_line(vkey(k), allsch[k]) for k in ("8_2_0", "8_3_0")]
+        idx2 = {}
+        for pi, ((b, l), u) in enumerate(zip(unm_pairs, unmr)):
             if "xml" not in u:
                 continue
             pth = os.path.join(scratch, f"unmerged_{l}.xml")
@@ -897,10 +973,10 @@ def _run(rng, thorough, wide, res, model_ok, scratch):
                 fh.write(u["xml"])
             usch = SX.load_file(pth)
             ukey = "unm" + vkey(l)
-            lines.append(file_line(ukey, usch))
-            idx[("unm", pi)] = len(lines)
-            lines += ["(load U%d (%s))" % (pi, sx_s(ukey)), "(entries U%d 0)" % pi]
-        out = C.run_driver(exe, lines, shards=1, timeout=3000)
+            lines2.append(file_line(ukey, usch))
+            idx2[pi] = len(lines2)
+            lines2 += ["(load %d U%d (%s))" % (FIXED, pi, sx_s(ukey)), "(entries U%d 0)" % pi]
+        out2 = C.run_driver(exe, lines2, shards=1, timeout=3000)
 
         for i, (vl, o) in enumerate(zip(loads, loadr)):
             corr += 1
@@ -916,13 +992,13 @@ def _run(rng, thorough, wide, res, model_ok, scratch):
                 corr_violation("load_schema_version", {"vlist": vl}, f"impl={o[:2]} model={mm}")
         for ci, vl in enumerate(ent_cfgs):
             corr += 1
-            if entr[ci] is None:
-                continue
             if ci < len(configs) and twar[ci] is not None:
                 m = out[idx[("flag", ci)]:idx[("flag", ci)] + 3]
                 mm = [sorted(un(x) for x in m[1]), sorted(un(x) for x in m[2]), m[0] == "1"]
                 if mm != twar[ci]:
                     corr_violation("tags_with_attribute/schema_83_props", {"vlist": vl}, f"impl={twar[ci]} model={mm}")
+            if entr[ci] is None or ("ent", ci) not in idx:
+                continue
             for j, ie in enumerate(entr[ci]):
                 me = model_entries(out[idx[("ent", ci)] + j])
                 ie = [tuple(x) for x in ie]
@@ -956,12 +1032,12 @@ def _run(rng, thorough, wide, res, model_ok, scratch):
                 mm = sorted(KIND2CODE.get(x, x) for x in out[base + k])
                 if mm != o:
                     corr_violation("required/unique", {"vlist": vl, "tags": l}, f"impl={o} model={mm}")
-        for pi, ((b, l), u) in enumerate(zip(PAIRS, unmr)):
-            if ("unm", pi) not in idx:
+        for pi, ((b, l), u) in enumerate(zip(unm_pairs, unmr)):
+            if pi not in idx2:
                 continue
             corr += 1
-            m = out[idx[("unm", pi)]]
-            me = model_entries(out[idx[("unm", pi)] + 1]) if m[0] == "ok" else m
+            m = out2[idx2[pi]]
+            me = model_entries(out2[idx2[pi] + 1]) if m[0] == "ok" else m
             ie = [(a, b_, c, tuple(tuple(z) for z in d)) for a, b_, c, d in u["entries"]]
             if me != ie:
                 diff = ([x for x in me if x not in set(ie)][:2] + [x for x in ie if x not in set(me)][:2]) if m[0] == "ok" else m
@@ -982,6 +1058,7 @@ def _run(rng, thorough, wide, res, model_ok, scratch):
         "disagreements_checked": disagreements,
         "correspondence_cases": corr,
         "configurations": [v for v, _ in configs],
+        "fixed_semantics": bool(FIXED),
         "equivalence_cases": n_eq,
     })
     return stats
